@@ -270,6 +270,9 @@ def monitor (pid : String) (c0 a : List String) : String :=
               let k := (los.filter (· == id)).length
               if k == 1 then none else some s!"C08 a session the backend returned received {k} Logout calls instead of exactly one") ++
            (if los.all (fun id => created.contains id) then [] else ["C08 Logout on a session that was never created"])
+         else if tag == "TAG=cutline" then
+           -- the conversation ends (disconnect, idle timeout) inside a command line that mentions the bait: nothing of it is executed
+           Spec.Mon.checkBait input evs ++ Spec.Mon.check8 evs
          else Spec.Mon.check8 evs
        | "C09" => Spec.Mon.check9 cfg evs ++ Spec.AuthMon.check input evs ++
            (Spec.Mon.check10 cfg (tlsMode == "implicit") evs).filter (fun r => "C09".isPrefixOf r)
